@@ -7,6 +7,7 @@ import PysersicModel
 import PysersicModel.Driver.EarlyStop
 import PysersicModel.Driver.SkyEstimate
 import PysersicModel.Driver.Validate
+import PysersicModel.Driver.Results
 
 open Pysersic
 
@@ -23,6 +24,8 @@ def dispatch (line : String) : String :=
     | "ri" => Driver.rendererInitCmd args
     | "pm" => Driver.parseMaskCmd args
     | "pt" => Driver.priorTypeCmd args
+    | "rs" => Driver.resultsFate args
+    | "wrap" => Driver.wrapCmd args
     | _ => "bad-op " ++ cmd
 
 partial def loop (h : IO.FS.Stream) (out : IO.FS.Stream) : IO Unit := do
